@@ -274,6 +274,8 @@ pub const STRETCH_SERDE: &[Tmpl] = &[
     Tmpl { name: "long unknown element name x long unknown attribute", segs: &[L(b"<r "), S(1, b"k"), L(b"=\"1\"><"), S(0, b"n"), L(b"z/><a>t</a></r>")] },
     Tmpl { name: "entities in text x entities in attribute", segs: &[L(b"<r x=\""), S(1, b"&lt;"), L(b"\"><a>"), S(0, b"&amp;&#x20;"), L(b"</a></r>")] },
     Tmpl { name: "blank text around items", segs: &[L(b"<r>"), S(0, b" \n"), L(b"<a>x</a>"), S(1, b"\t"), L(b"<a>y</a></r>")] },
+    Tmpl { name: "text-only unknown elements, blanks, then text", segs: &[L(b"<r>"), S(0, b"<zz>q</zz>"), S(1, b" "), L(b"t<a>x</a></r>")] },
+    Tmpl { name: "text-only unknown element, blanks around a comment", segs: &[L(b"<r><zz><![CDATA[q]]></zz>"), S(0, b" "), L(b"<!--c-->"), S(1, b" "), L(b"<a>x</a></r>")] },
     Tmpl { name: "prolog x trailing comments", segs: &[L(b"<?xml version=\"1.0\"?>"), S(0, b"<!--p-->"), L(b"<r><a>t</a></r>"), S(1, b"<!--e-->")] },
 ];
 
